@@ -111,6 +111,20 @@ class Run:
         t = time.time()
         if canary:
             return out, eng
+        if os.environ.get('VERIF_SECOND_OPINION', '1') != '0':
+            done = [vc for vc, r in zip(eng.vcs, res) if r['status'] == 'unsat']
+            ops = solve.second_opinion(done, axioms, budget_s=(6 if self.tier == 'thorough' else 2), nproc=self.nproc)
+            tally = self.extra_cov.setdefault('second_opinion', {'solver': '/usr/bin/z3 4.8.12 on the SMT-LIB text of each discharged obligation', 'agrees': 0, 'no_opinion': 0, 'disagrees': 0})
+            for vc, o in zip(done, ops):
+                if o == 'unsat':
+                    tally['agrees'] += 1
+                elif o == 'sat':
+                    tally['disagrees'] += 1
+                    self.faults.append('second opinion: z3 4.8.12 finds a counter-model for %s::%s which z3 5.1 discharged' % (unit.name, vc.oid))
+                else:
+                    tally['no_opinion'] += 1
+            self._ph('second-opinion', t)
+            t = time.time()
         # vacuity guard: for every function at least one exit path must have satisfiable hypotheses
         exits = {}
         for vc in eng.vcs:
